@@ -123,4 +123,100 @@ example :
   simp only [List.mem_cons, List.not_mem_nil, or_false] at hl
   rcases hl with rfl | rfl <;> simp [InvLayer.edge, exInvGraph, identityEdge]
 
+/-- **Node level, any number of layers: the LAST layer's backward input computes what `f` returned under its name.**  `node_decorated_layer_input_fresh`
+for a chain of any length under the function's context. -/
+theorem node_chain_last_layer_input (b fb r : Bag) (h : b.loopbackWith fb = .ok r) :
+    ∃ state es, connectBags b fb = .ok state ∧ r.edges = state.edges ++ es ∧ r.inputs = state.inputs ∧
+      ∀ (l : CtxLayer) (rest : List CtxLayer) (inhf : NameSet) (n o : BNode),
+        state.ctx = .chain (chainCtx (l :: rest)) (.bag [] [] inhf) → (names state.outputs).Nodup →
+        n ∈ l.bi → o ∈ state.outputs → o.name = n.name → inhf.mem n.name = true →
+        (∀ m ∈ state.inputs, m.id < state.next) → n ∉ r.inputs → ¬ Down r.edges (es.map (·.out)) o → ∀ t, BDen r n t ↔ BDen state o t := by
+  obtain ⟨state, es, hst, he, hall⟩ := node_decorated_input_is_f_output b fb r h
+  obtain ⟨state', _, _, _, _, hst', _, _, _, hin⟩ := loopback_shape b fb r h
+  have : state' = state := by rw [hst] at hst'; injection hst' with h'; exact h'.symm
+  subst this
+  refine ⟨state', es, hst, he, hin, ?_⟩
+  intro l rest inhf n o hctx hnd hn ho hname hinh hlt hnr hd t
+  obtain ⟨c, hcn, hpass⟩ := bag_pass_exists [] [] inhf state'.outputs state'.next o ho (by rw [hname]; exact hinh) (by simp [names])
+  have hrev := fn_ctx_reverse inhf state'.outputs state'.next hnd
+  cases hpass with
+  | bag hc hedge =>
+    have hcl_names := cloneEdges_names false (state'.outputs.filter fun m => inhf.mem m.name && !(names []).contains m.name) state'.next
+    have hnd_cl : (names (cloneEdges false (state'.outputs.filter fun m => inhf.mem m.name && !(names []).contains m.name) state'.next).1).Nodup := by
+      rw [hcl_names, names_filter state'.outputs fun x => inhf.mem x && !(names ([] : List BNode)).contains x]
+      exact List.Nodup.sublist List.filter_sublist hnd
+    have hby : byName (cloneEdges false (state'.outputs.filter fun m => inhf.mem m.name && !(names []).contains m.name) state'.next).1 n.name = some c := by
+      have := byName_of_mem (names_inj_of_nodup hnd_cl) hc
+      rw [hcn.trans hname] at this
+      exact this
+    have hfresh : state'.next ≤ c.id := ((cloneEdges_spec false _ state'.next).2.2.2.1 c hc).1
+    have hcr : c ∉ r.inputs := by
+      rw [hin]
+      intro hmem
+      have := hlt c hmem
+      omega
+    refine hall n c o ?_ ?_ hnr hcr hd t
+    · rw [hctx]
+      refine .earlier hrev ?_
+      cases rest with
+      | nil => exact .bag hn hby
+      | cons q rest => exact .later (.bag hn hby)
+    · rw [hctx]; exact .later (.bag hc hedge)
+
+/-- **Node level, any number of layers, in closed form: forward, then `f`, then every inverse, the last layer's first.**  A chain `L1 ... Ln` of layers
+with one-argument inverse fields of one name `x`, decorated around `f`: if `f`'s output `x` computes `t` in `pipeline >> f`, the backward output of the
+FIRST layer computes `inv_1(inv_2(... inv_n(t)))` in the decorated graph - for chains of every length, every well-formed pipeline and every `f`. -/
+theorem node_chain_decorated_term (b fb r : Bag) (h : b.loopbackWith fb = .ok r) :
+    ∃ state es, connectBags b fb = .ok state ∧ r.edges = state.edges ++ es ∧
+      ∀ (l0 : InvLayer) (ls : List InvLayer) (inhf : NameSet) (o : BNode) (t : BTerm),
+        state.ctx = .chain (chainCtx ((l0 :: ls).map InvLayer.ctx)) (.bag [] [] inhf) →
+        (names state.outputs).Nodup → (∀ m ∈ state.inputs, m.id < state.next) →
+        PlainChain ((l0 :: ls).map InvLayer.ctx)
+          (cloneEdges false (state.outputs.filter fun m => inhf.mem m.name && !(names []).contains m.name) state.next).1 →
+        Wired r (l0 :: ls) → (∀ l ∈ l0 :: ls, l.n ∉ r.inputs ∧ l.n.name = l0.n.name ∧ l.o.name = l0.n.name) →
+        o ∈ state.outputs → o.name = l0.n.name → inhf.mem l0.n.name = true → ¬ Down r.edges (es.map (·.out)) o →
+        BDen state o t → BDen r (lastOut l0 ls) (invTerm (l0 :: ls) t) := by
+  obtain ⟨state, es, hst, he, _, hlast⟩ := node_chain_last_layer_input b fb r h
+  obtain ⟨state2, hst2, hterm⟩ := node_chain_inverse_term b fb r h
+  have e2 : state2 = state := by rw [hst] at hst2; injection hst2 with h'; exact h'.symm
+  subst e2
+  refine ⟨state2, es, hst, he, ?_⟩
+  intro l0 ls inhf o t hctx hnd hlt hp hw hnames ho hname hinh hd hden
+  refine hterm l0 ls inhf t hctx hnd hp hw hnames ?_
+  have hctx' : state2.ctx = .chain (chainCtx (l0.ctx :: ls.map InvLayer.ctx)) (.bag [] [] inhf) := by
+    rw [hctx]; rfl
+  exact (hlast l0.ctx (ls.map InvLayer.ctx) inhf l0.n o hctx' hnd (by simp [InvLayer.ctx]) ho hname hinh hlt
+    (hnames l0 List.mem_cons_self).1 hd t).2 hden
+
+/-- **... and that node is THE output of the decorated graph**: the decorated function returns exactly the one field `x`, computing
+`inv_1(inv_2(... inv_n(t)))`. -/
+theorem node_chain_decorated_field (b fb r : Bag) (h : b.loopbackWith fb = .ok r) :
+    ∃ state es, connectBags b fb = .ok state ∧ r.edges = state.edges ++ es ∧
+      ∀ (l0 : InvLayer) (ls : List InvLayer) (inhf : NameSet) (o : BNode) (t : BTerm),
+        state.ctx = .chain (chainCtx ((l0 :: ls).map InvLayer.ctx)) (.bag [] [] inhf) →
+        (names state.outputs).Nodup → (∀ m ∈ state.inputs, m.id < state.next) →
+        PlainChain ((l0 :: ls).map InvLayer.ctx)
+          (cloneEdges false (state.outputs.filter fun m => inhf.mem m.name && !(names []).contains m.name) state.next).1 →
+        Wired r (l0 :: ls) → (∀ l ∈ l0 :: ls, l.n ∉ r.inputs ∧ l.n.name = l0.n.name ∧ l.o.name = l0.n.name) →
+        o ∈ state.outputs → o.name = l0.n.name → inhf.mem l0.n.name = true → ¬ Down r.edges (es.map (·.out)) o →
+        BDen state o t → r.outputs = [lastOut l0 ls] ∧ r.Field l0.n.name (invTerm (l0 :: ls) t) := by
+  obtain ⟨state, es, hst, he, hall⟩ := node_chain_decorated_term b fb r h
+  obtain ⟨state', outs, es', opt, nx, hst', hrev, hout, _, _⟩ := loopback_shape b fb r h
+  have e2 : state' = state := by rw [hst] at hst'; injection hst' with h'; exact h'.symm
+  subst e2
+  refine ⟨state', es, hst, he, ?_⟩
+  intro l0 ls inhf o t hctx hnd hlt hp hw hnames ho hname hinh hd hden
+  have hden' := hall l0 ls inhf o t hctx hnd hlt hp hw hnames ho hname hinh hd hden
+  have hcl := chain_reverse_closed _ _
+    (cloneEdges false (state'.outputs.filter fun m => inhf.mem m.name && !(names []).contains m.name) state'.next).2.2 hp
+  have hr := chain_reverse_eq (fn_ctx_reverse inhf state'.outputs state'.next hnd) hcl
+  rw [hctx, hr] at hrev
+  simp only [Except.ok.injEq, Prod.mk.injEq] at hrev
+  have houts : r.outputs = [lastOut l0 ls] := by rw [hout, ← hrev.1, chainOuts_inv]
+  refine ⟨houts, lastOut l0 ls, by rw [houts]; exact List.mem_singleton.2 rfl, ?_, hden'⟩
+  -- the name of the first layer's backward output
+  obtain ⟨l, hl, hlo⟩ := List.mem_map.1 (lastOut_mem ls l0)
+  rw [← hlo]
+  exact (hnames l hl).2.2
+
 end CM.C10
